@@ -15,8 +15,6 @@ open PromVerif.Lemmas.TextParse PromVerif.Model.TextExpo
 structure ExOK (P : Params) (e : Exemplar) : Prop where
   /-- label names accepted by `_validate_labelname` (what `_validate_exemplar` checks), unique keys -/
   labels : LabelsOK P.legacy e.labels
-  /-- F18: no double quote in an exemplar label name or value -/
-  noQuote : ∀ kv ∈ e.labels, '"' ∉ kv.1 ∧ '"' ∉ kv.2
   /-- the 128-character limit of `_validate_exemplar` -/
   len : labelsLen e.labels ≤ 128
   value : ∃ b, ValTok P (Utils.floatToGoString e.value) b
@@ -39,12 +37,8 @@ theorem numTok_tsStr {P : Params} {t : Ts} (h : TsOK P t) : NumTok (OMExpo.tsStr
   cases t with
   | int n => exact intStr_numTok n
   | stamp s n =>
-    obtain ⟨h0, _, _⟩ := h
-    obtain ⟨k, rfl⟩ := Int.eq_ofNat_of_zero_le h0
-    have hstr : OMExpo.stampStr s (k : Int) = intStr s ++ '.' :: zpad 9 (decDigits k) := by
-      unfold OMExpo.stampStr; simp
-    show NumTok (OMExpo.stampStr s (k : Int))
-    rw [hstr]
+    show NumTok (OMExpo.stampStr s n)
+    rw [stampStr_eq]
     refine ⟨by simp, ?_⟩
     intro c hc
     rcases List.mem_append.mp hc with h | h
@@ -54,7 +48,7 @@ theorem numTok_tsStr {P : Params} {t : Ts} (h : TsOK P t) : NumTok (OMExpo.tsStr
       · unfold zpad at h
         rcases List.mem_append.mp h with h | h
         · rw [List.mem_replicate] at h; rw [h.2]; decide
-        · exact digit_numChar (List.all_eq_true.mp (allDigits_decDigits k) c h)
+        · exact digit_numChar (List.all_eq_true.mp (allDigits_decDigits _) c h)
   | flt r =>
     rcases h with ⟨neg, a, b, rfl, _, had, _, hbd, _⟩ | ⟨_, hne, hc, _⟩
     · exact numTok_plain neg a b had hbd
@@ -149,9 +143,7 @@ theorem rem_roundtrip (P : Params) (hI : IntLaw P.pyInt) (s : Sample) (h : Sampl
     have hex := h.exemplar e he
     obtain ⟨eb, hev⟩ := hex.value
     obtain ⟨hok, hnd⟩ := labelsOK_sorted hex.labels
-    have hq : ∀ kv ∈ sortByKey e.labels, '"' ∉ kv.1 ∧ '"' ∉ kv.2 := fun kv hkv =>
-      hex.noQuote kv ((sortByKey_perm e.labels).mem_iff.mp hkv)
-    have hpass := exPass_block (sortByKey e.labels) hok hq
+    have hpass := exPass_block (sortByKey e.labels) hok
     have hlab := parseLabels_block (sortByKey e.labels) hok hnd
     obtain ⟨oets, hets1, hets2⟩ := ts_opt_roundtrip P hI e.ts hex.ts
     have hnts : ∀ t, s.ts.map (fun t => OMExpo.tsStr t.ts) = some t → NumTok t := htok.ts
